@@ -376,7 +376,13 @@ where
     B: Send + 'static,
 {
     fn push(&mut self, token: Token, mut connection: C, pool_ref: PoolRef<C, B>) {
-        self.connecting.remove(&token);
+        // Only a connection which can be shared is the outcome of the in-flight attempt
+        // which other requests wait for. A connection released by an unrelated request
+        // must leave the marker alone: clearing it here would hide the attempt from
+        // `cancel_connection`, and requests following it would never be released.
+        if connection.can_share() {
+            self.connecting.remove(&token);
+        }
 
         if let Some(waiters) = self.waiting.get_mut(&token) {
             trace!(waiters=%waiters.len(), ?token, "walking waiters");
